@@ -411,7 +411,7 @@ func cmdConc(kind string, args []string) {
 			if len(rep.Samples) < 3 && len(c.sched) > 5 {
 				rep.Samples = append(rep.Samples, strings.Join(c.ops, " || ")+"  schedule "+conc.SchedString(c.sched)+"  =>  "+strings.Join(c.run.Resp, " | "))
 			}
-			if bad >= 0 && !p.Strict() {
+			if bad >= 0 && !p.Strict() && c.run.Stalled == "" {
 				if serial, err := serialOrderExists(c, modelKind, p.Same); err == nil && serial {
 					rep.Extra["explained_by_another_serial_order"]++
 					bad = -1
@@ -422,6 +422,13 @@ func cmdConc(kind string, args []string) {
 				if rejects < 2 && len(rep.Mismatches) < 40 {
 					serial, err := serialOrderExists(c, modelKind, p.Same)
 					verdict := ""
+					if c.run.Stalled != "" {
+						rep.Mismatches = append(rep.Mismatches, core.Mismatch{Config: p.Config(), Ops: c.lines[:bad+1], Impl: c.impl[:bad+1],
+							Model: append([]string{}, model[:bad+1]...), Index: bad, ShrunkFrom: len(c.lines), Kind: kind, OpsJSON: p.WithSched(c.sched),
+							Note: "STALLED: " + c.run.Stalled + " (a request is blocked where the one-lock machine lets it move: a lock taken under another key, a lock never released, or a lost wake-up)", SpecVerdict: "rejects"})
+						rejects++
+						continue
+					}
 					note := "the implementation's run is not a run of the one-lock machine Emu.Conc.step over the sequential Model (a step was not enabled, or a response differs from the Model's at the request's turn)"
 					if err != nil {
 						note += "; serial-order search failed: " + err.Error()
